@@ -22,12 +22,19 @@ import (
 
 // Inner is reached through pointers, values, slices and maps of Fact.
 type Inner struct {
-	X int64
-	Y float64
-	S string
-	B bool
-	N int32
-	U uint16
+	X   int64
+	Y   float64
+	S   string
+	B   bool
+	N   int32
+	U   uint16
+	Sub *Leaf
+}
+
+// Leaf sits two steps below slice / map elements (F.PArr[0].Sub.V).
+type Leaf struct {
+	V int64
+	W float64
 }
 
 // Fact covers every addressing form and kind the properties quantify over.
@@ -65,6 +72,7 @@ type Fact struct {
 	MInt                  map[string]int
 	Idx                   int64
 	Key                   string
+	MKey                  string
 	PB                    *bool
 	AnyB                  interface{}
 	MAny                  map[string]interface{}
